@@ -96,6 +96,8 @@ def parseSched? (s : String) : Option Sched :=
   match s with
   | "batch" => some .batch | "round-robin" => some .roundRobin | "random" => some .random | _ => none
 
+def parseClean (j : Json) : Bool := (getBool? j "clean").getD false
+
 def parseSessionSpec? (j : Json) : Option (Sched × List Nat × List Nat × Option Nat) := do
   let sched ← parseSched? (← getStr? j "sched")
   let order ← (← getArr? j "order").toList.mapM asNat?
@@ -112,6 +114,7 @@ structure Scenario where
   benchOf : Nat → Nat
   H : Harness
   specs : List (Sched × List Nat × List Nat × Option Nat)
+  cleans : List Bool
   rtK : Nat → Nat
   rtB : Nat → Nat
   contents : List (List (Line Nat Nat))
@@ -121,6 +124,7 @@ def parseScenario? (j : Json) : Option Scenario := do
   let outs ← parseOutTable? (← getObj? j "out")
   let buildOk ← (← getArr? j "buildOk").toList.mapM asBool?
   let specs ← (← getArr? j "sessions").toList.mapM parseSessionSpec?
+  let cleans := (← getArr? j "sessions").toList.map parseClean
   let nfiles ← getNat? j "nfiles"
   let rtK := match getArr? j "rtK" with
     | some a => (a.toList.mapM asNat?).getD []
@@ -145,7 +149,7 @@ def parseScenario? (j : Json) : Option Scenario := do
   pure { colsOf := colsTable.map (fun t => fun k => t.getD k []), cfg := runs.map (·.1), benchOf := benchOf,
          H := harnessOf ((getBool? j "faulty").getD false) (fun i => ign.getD i false)
                 (fun r inv => ((outs.getD r []).getD (inv - 1) none)) (fun b => buildOk.getD b true),
-         specs := specs, rtK := tableFn rtK, rtB := tableFn rtB, contents := contents }
+         specs := specs, cleans := cleans, rtK := tableFn rtK, rtB := tableFn rtB, contents := contents }
 
 /-- consecutive measurement lines as one text blob (what is on disk between two comment lines) -/
 def segments (colsOf : Nat → List (List Char)) : List (Line Nat Nat) → List Json
@@ -175,11 +179,13 @@ def resultJson (colsOf : Option (Nat → List (List Char))) (before : List (List
               ("loaded", Json.arr (r.loadedRuns.map runStJson).toArray)]
 
 def runScenario (sc : Scenario) : Json :=
-  let rs := match sc.colsOf with
-    | some f => sessionsT sc.benchOf f sc.rtK sc.rtB sc.cfg sc.H sc.specs sc.contents
-    | none => sessions sc.benchOf sc.rtK sc.rtB sc.cfg sc.H sc.specs sc.contents
-  let befores := sc.contents :: rs.map (·.contents)
-  Json.mkObj [("sessions", Json.arr ((rs.zip befores).map (fun (r, b) => resultJson sc.colsOf b r)).toArray),
+  let pairs : List (List (List (Line Nat Nat)) × SessionResult Nat Nat) := match sc.colsOf with
+    | some f => sessionsClean sc.benchOf f sc.rtK sc.rtB sc.cfg sc.H (sc.cleans.zip sc.specs) sc.contents
+    | none =>
+      let rs := sessions sc.benchOf sc.rtK sc.rtB sc.cfg sc.H sc.specs sc.contents
+      (sc.contents :: rs.map (·.contents)).zip rs
+  let rs := pairs.map (·.2)
+  Json.mkObj [("sessions", Json.arr (pairs.map (fun (b, r) => resultJson sc.colsOf b r)).toArray),
               ("final", Json.arr ((rs.getLast?.map (·.contents)).getD sc.contents |>.map
                   (fun f => Json.arr (f.map lineJson).toArray)).toArray)]
 
